@@ -2,9 +2,15 @@
 """Print the prompt for a mutation sub-agent: property text + its own worktree only."""
 import json, sys
 pid = sys.argv[1]
+wave = sys.argv[2] if len(sys.argv) > 2 else ''
 p = [json.loads(l) for l in open('/verif/properties.jsonl') if json.loads(l)['id'] == pid][0]
-wt = '/tmp/wt-%s' % pid.lower()
-out = '/tmp/seed/%s' % pid
+wt = '/tmp/wt-%s%s' % (pid.lower(), wave)
+out = '/tmp/seed/%s%s' % (pid, wave)
+avoid = ''
+if wave:
+    import glob
+    prev = [json.load(open(f)).get('needs', '') for f in sorted(glob.glob('/verif/seeded/%s-*/meta.json' % pid))]
+    avoid = 'AVOID (already tried by others, do something with a DIFFERENT mechanism and site): ' + ' || '.join(prev) + '\n'
 print(f"""You are helping to test a verification effort for the Python library pymodbus (Modbus protocol stack, version 2.4.0 snapshot).
 You have your own scratch git worktree of the repository at {wt} (python interpreter with all dependencies: /venv/bin/python; run it with `cd {wt} && PYTHONPATH={wt} /venv/bin/python ...` so that YOUR copy of pymodbus is imported, and check `pymodbus.__file__` once to be sure). Work ONLY inside {wt} and {out}/ . Never touch /repo or /verif and do not read anything under /verif.
 
@@ -23,6 +29,8 @@ YOUR TASK: produce TWO different, independent, realistic source changes (call th
     On the unchanged tree this gives "354 passed" plus a fixed set of failures/collection errors that are environmental (asyncio.coroutine missing, sqlalchemy, ...). After your change the SAME 354 tests must still pass (run it to be sure; takes ~15 s).
 Prefer changes that need something SPECIFIC to manifest -- a particular interleaving or arrival schedule, a fault at a particular point, a multi-step sequence of operations, an unusual input/boundary value, a non-initial state, or two cooperating sites that each look fine alone -- NOT changes that any ordinary use would expose at once. They should look like plausible developer mistakes or "optimisations" (off-by-one in a boundary, a reset moved or dropped, state hoisted to class/module scope, a check reordered, a cache keyed too coarsely, an early return, an error path that forgets to restore something ...), not like sabotage. A and B should break the property through different mechanisms/sites.
 
+Do NOT use `git stash` (the stash is shared between worktrees); save diffs to files and use `git apply` / `git checkout -- .` instead.
+{avoid}
 Note: the unchanged tree may already violate this property in some corners (it is an old snapshot with known bugs). Your change must introduce a NEW failure: your demonstration must PASS on the unchanged tree and FAIL with your change.
 
 DELIVERABLES (create directory {out}/ ):
